@@ -57,8 +57,10 @@ META = {
     "assumptions": [
         "A_abs: the realized text is a function of the tree, the props and the lexicon entries used (peng/taux sharing not modelled)",
         "A_ascii: json.dumps' default \\uXXXX escaping of non-ASCII characters is inverted by json.loads (the model prints with ensure_ascii=False)",
-        "A_repr: repr() of the option values that occur (str without control characters other than \\n \\r \\t, int, bool, None, "
-        "dict of those, datetime) is what Model/ExprSource.reprPVal prints",
+        "A_repr: repr() of the option values that occur (str, int, bool, None, dict of those, datetime) is what "
+        "Model/ExprSource.reprPVal prints; which characters repr escapes (str.isprintable) is a table computed by running "
+        "Python over the generator's character alphabet (Gen.OptionTable.nonPrintable: controls, U+0085, U+00A0, U+00AD, "
+        "U+200B, U+2028, U+FEFF, U+FFFE, U+D7FF, tag characters U+E0001/E0020/E007F, private use U+F0000/U+10FFFD)",
         "A_lex: the lexicon entries sent to the model (harness Lex.info, computed from the JSON data files, not through the "
         "code under test) are what getLemma returns",
     ],
@@ -260,10 +262,18 @@ PUNCT = [",", ".", "!", "?", ":", ";", "(", "[", "{", '"', "'", "*", "«", "..."
 QWORDS = ["hello", "two words", "l'été", "œuvre", "", "Zoé", "a-b", "100%", "<b>", "x_y"]
 # (a lemma that is a lone double quote prints as `Q(""")`: two of them in one expression delimit a triple-quoted
 #  string — triple quotes are outside the model and are not generated)
-QBAD = ['say "hi"', 'a"', 'x"y', 'back\\slash', 'tab\\there', 'end\\', 'q\\q', "it's \"x\"", 'a\\"b', "C:\\new"]
+# unusual characters (non-printable ones of the BMP and above it, printable astral ones): drawn from the alphabet of
+# harness/translate/options.py, whose isprintable() table the model's repr uses
+from harness.translate.options import CHAR_ALPHABET  # noqa: E402
+SPECIAL = [chr(cp) for cp in CHAR_ALPHABET]
+QWORDS += ["a" + c + "b" for c in SPECIAL] + [SPECIAL[i] + SPECIAL[-1 - i] for i in range(0, len(SPECIAL), 3)]
+PUNCT += [c for c in SPECIAL[::2]] + ["(" + SPECIAL[-2], SPECIAL[7] + "»"]
+QBAD = ['x\ry', '\r', 'say "hi"', 'a"', 'x"y', 'back\\slash', 'tab\\there', 'end\\', 'q\\q', "it's \"x\"", 'a\\"b', "C:\\new"]
 TAGS = [("b", None), ("i", {}), ("a", {"href": "http://x.org/?a=1&b=2"}), ("span", {"class": "c d", "id": "n1"}),
         ("p", {"title": "it's"}), ("div", {"data-x": 'say "hi"'}), ("a b", None)]
-TAGSBAD = [('q"t', None), ('q"t', {"k": "v"}), ("b\\c", {"k": "v"})]
+TAGS += [("t" + c, None) for c in SPECIAL[::3]] + [("u" + c, {"k" + SPECIAL[(i * 5) % len(SPECIAL)]: "v" + c})
+                                                  for i, c in enumerate(SPECIAL[1::2])]
+TAGSBAD = [("c\rr", {"k": "v"}), ("c\rr", None), ('q"t', None), ('q"t', {"k": "v"}), ("b\\c", {"k": "v"})]
 DATES = ["2024-01-05", "1999-12-28T23:59:58", "2023-07-14 00:00:00", "2024-02-28T12:00:00", "2000-01-01 12:30:00"]
 NUMS = [0, 1, 2, 3, 21, 100, 1000, 1234567, -5, "1", "25", "3.5", "1000", "-2", "+7", "12."]
 NEGFR = ["plus", "jamais", "rien", "personne", "guère"]
@@ -956,9 +966,13 @@ def features(line, table):
                 f.add("datetime")
         if k == "Q" and isinstance(n["lemma"], str) and ('"' in n["lemma"] or "\\" in n["lemma"]):
             f.add("quote-lemma")
+        if k == "Q" and isinstance(n["lemma"], str) and "\r" in n["lemma"]:
+            f.add("cr")
         for c in list(n.get("elems", [])) + ([n["term"]] if "term" in n else []) + [c[1] for c in n["calls"] if c[0] == "add"]:
             if isinstance(c, str) and ('"' in c or "\\" in c):
                 f.add("quote-lemma")
+            if isinstance(c, str) and "\r" in c:
+                f.add("cr")
         if k in table["lexKinds"] and isinstance(n["lemma"], str):
             inf = L.info(n["lang"], n["lang"], k, norm_lemma(n["lemma"]))
             if inf and (inf["tabpe"] is not None or inf["plural"] or any(
@@ -977,6 +991,8 @@ def features(line, table):
                 seen_opt = True
             if c[0] == "tag" and c[2] and ('"' in c[1] or "\\" in c[1]):
                 f.add("quote-tag")
+            if c[0] == "tag" and c[2] and "\r" in c[1]:
+                f.add("cr")
             if c[0] == "dOpt" and any(isinstance(v, dict) for v in c[1].values()):
                 f.add("datetime")
             if c[0] == "dOpt" and isinstance(c[1].get("rtime"), str):
@@ -1022,6 +1038,7 @@ def adj_stable(np, L):
 # which clause failures each feature is known to explain: feature -> route -> aspects
 ANY = ("text", "json", "source")
 EXPLAINS = [
+    ("cr", {"source": ("err:SyntaxError",)}),
     ("datetime", {"json-text": ("err:TypeError",), "source": ("err:NameError", "json"), "json": ("source",)}),
     ("rtime-str", {"json-text": ("err:TypeError",), "json": ("source",), "source": ()}),
     ("NO-letters", {"source": ("json", "text"), "json": ("json", "source", "text"),
